@@ -350,7 +350,18 @@ func execXW(o *Out, id, line string) {
 		if err == nil && !bytes.Equal(got, data) {
 			o.Violate("C12", fmt.Sprintf("xflate.Reader on the stream cut at %d succeeds with different content", k), "cut-xflate-success", line)
 		} else if !bytes.HasPrefix(data, got) {
-			o.Violate("C12", fmt.Sprintf("xflate.Reader on the stream cut at %d (of %d) delivers %d bytes that are not a prefix of the original before failing with %v", k, len(out), len(got), err), "cut-xflate-wrong-bytes", line)
+			// D6 shape: the wrong tail is (a prefix of) the five end-block bytes that
+			// chunkReader appends, released before the chunk could be verified, and
+			// the read then fails
+			p := 0
+			for p < len(got) && p < len(data) && got[p] == data[p] {
+				p++
+			}
+			sig := "cut-xflate-wrong-bytes"
+			if err != nil && len(got)-p <= len(xfEndBlock) && bytes.HasPrefix(xfEndBlock, got[p:]) {
+				sig = "cut-xflate-endblock-bytes-then-error"
+			}
+			o.Violate("C12", fmt.Sprintf("xflate.Reader on the stream cut at %d (of %d) delivers %d bytes that are not a prefix of the original before failing with %v", k, len(out), len(got), err), sig, line)
 		}
 	}
 }
@@ -456,14 +467,23 @@ func genXW(r *Rand, tier string, emit func(string)) {
 		}
 		emit(fmtXwLine(cfg, "-", ops, tail))
 	}
-	// plaintexts that embed XFLATE structure, stored (level -1): C12/D6 territory
+	// D6: a stored stream whose plaintext embeds a forged index and footer describing the
+	// stream's own first 55 bytes (stored-block header + 50 bytes) as one chunk; every cut is tried
+	{
+		pre := r.Bytes(50)
+		idx := metaStream(buildIndex(0, []idxRec{{55, 50}}, 1, 55, 50, false, 0), 1)
+		forged := append(append([]byte{}, idx...), buildFooter(uint64(len(idx)))...)
+		d := append(append(append([]byte{}, pre...), forged...), r.Bytes(30)...)
+		emit(fmtXwLine(xwCfg{level: -1, chunk: 0, index: 0}, "-", []xwOp{{kind: 'W', data: d}}, []string{"C"}) + " allcuts=1")
+	}
+	// plaintexts that embed XFLATE structure, stored (xflate.NoCompression = -1): C12/D6 territory
 	for i := 0; i < 20; i++ {
 		inner, _, err := buildXflate(randXwCfg(r), randXwOps(r, 4, 40))
 		if err != nil {
 			continue
 		}
 		d := append(r.Bytes(r.Intn(60)), inner...)
-		emit(fmtXwLine(xwCfg{level: -1, chunk: int64(r.Pick([]int{0, 50, 1000})), index: 0}, "-", []xwOp{{kind: 'W', data: d}, {kind: 'W', data: r.Bytes(r.Intn(30))}}, []string{"C"}))
+		emit(fmtXwLine(xwCfg{level: -1, chunk: int64(r.Pick([]int{0, 50, 1000})), index: 0}, "-", []xwOp{{kind: 'W', data: d}, {kind: 'W', data: r.Bytes(r.Intn(30))}}, []string{"C"}) + " allcuts=1")
 	}
 	// chunks whose compressed size is just past a multiple of the reader's 4096-byte reads
 	for c := int64(4085); c <= 4091; c++ {
